@@ -15,6 +15,7 @@ import (
 type schemaSpec struct {
 	types   []typeSpec
 	wrapped map[string]bool
+	literal bool // the Types slice is written directly, in the listed order, instead of through AddType
 }
 
 func (s schemaSpec) build() *jsonapi.Schema {
@@ -25,7 +26,13 @@ func (s schemaSpec) build() *jsonapi.Schema {
 			if err != nil {
 				panic("BuildType: " + err.Error())
 			}
-			_ = sc.AddType(typ)
+			if s.literal {
+				sc.Types = append(sc.Types, typ)
+			} else {
+				_ = sc.AddType(typ)
+			}
+		} else if s.literal {
+			sc.Types = append(sc.Types, t.softType())
 		} else {
 			_ = sc.AddType(t.softType())
 		}
@@ -386,16 +393,25 @@ func runC01(c *ctx) {
 		n = 4000
 	}
 	for i := 0; i < n; i++ {
-		t := randTypeSpec(c.r, pick(c.r, []string{"t", "users", "a-b"}), 8, []string{"other"})
+		// relationships may point to a type the schema does not hold
+		t := randTypeSpec(c.r, pick(c.r, []string{"t", "users", "a-b"}), 8, []string{"other", "other", "absent"})
 		if c.r.chance(1, 4) {
 			t = all
 		}
 		wrapped := c.r.bool()
 		sc := schemaSpec{types: []typeSpec{other, t}, wrapped: map[string]bool{t.name: wrapped}}
+		if c.r.chance(1, 3) {
+			// a schema written as a literal, its types in no particular order
+			sc.literal = true
+			sc.types = []typeSpec{t, other}
+		}
 		if t.name != "alltypes" && c.r.chance(1, 3) {
 			// another type whose name differs only in case, listed first
 			decoy := typeSpec{name: strings.ToUpper(t.name), fields: []fieldSpec{{name: "decoy", code: 1}}}
 			sc.types = []typeSpec{decoy, other, t}
+			if sc.literal {
+				sc.types = []typeSpec{t, other, decoy}
+			}
 		}
 		c01Case(c, sc, t.name, wrapped, c01Ops(c.r, t, c.r.bool()), pick(c.r, []string{"", "/", "http://h", "http://h/p/"}), "random")
 	}
